@@ -473,6 +473,28 @@ def DeliversExactly (s : Server) (pk : Msg) (out : List Out) (n : Nat) : Prop :=
   (out.filterMap pubConn).count n ≤ 1 ∧
   ∀ x ∈ out, (∃ id, x = Out.inline id pk.topic pk.payload) ∨ IsCopy pk x
 
+/-- **Item 2 without the hypothesis on deferred messages** (`PublishGates` instead of `AcceptedQ0`): the outputs of
+    the op are `o ++ r` where `o` is delivered exactly as in item 2 and `r` — at most two outputs — are releases of
+    deferred messages of the PUBLISHER: possible only if the publisher has send quota and holds, before the op, an
+    in-flight message `m` with `expiry < 0`; the output is `writeMsg` of `m` on the publisher's own connection. -/
+theorem recv_publish_delivery_exact_releases (s : Server) (hs : SyncInv s) (hw : WF s) (hcm : ConnMap s)
+    (conn i : Nat) (dup retain : Bool) (topic payload : Str) (me : Nat)
+    (hc : assocGet s.connOf conn = some i) (h : PublishGates s i topic)
+    (hsh : (subscribers s.topics topic).shared = []) :
+    ∃ o r, (step s (.recv conn (.publish 0 dup retain 0 topic payload me none))).2 = o ++ r ∧
+      (∀ n, DeliversExactly s (inboundMsg s i 0 dup retain 0 topic payload me) o n) ∧ r.length ≤ 2 ∧
+      ∀ x ∈ r, (getObj s i).sendQuota > 0 ∧ ∃ m ∈ (getObj s i).inflight, m.expiry < 0 ∧ x ∈ writeMsg s i m := by
+  have hnh := no_hash_level topic h.valid
+  have hsh' := (retainedState_shared s (inboundMsg s i 0 dup retain 0 topic payload me) hs.idx topic h.nonempty hnh).mpr hsh
+  obtain ⟨is, iw, ic⟩ := retainedState_inv (inboundMsg s i 0 dup retain 0 topic payload me) hs hw hcm
+  obtain ⟨r, h1, h2, h3⟩ := step_recv_publish_releases s conn i dup retain topic payload me hc h hsh'
+  refine ⟨_, r, h1, fun n => ?_, h2, h3⟩
+  obtain ⟨g1, g2, g3, g4⟩ := C03_delivery_exact_inv_partial _ is iw ic (inboundMsg s i 0 dup retain 0 topic payload me)
+    rfl rfl (Or.inl rfl) h.nonempty hnh hsh' n
+  rw [entitledF03_retainedState] at g1 g2
+  rw [entitledSession_retainedState] at g2
+  exact ⟨g1, g2, g3, g4⟩
+
 /-- **Item 4, on reachable states.**  In every state `s` reached from `init caps` by ops that are not schedule ops,
     interleaved with configuration changes (`ReachSeq`): the NEXT op, if it is an accepted QoS 0 PUBLISH of a network
     client (`AcceptedQ0`) or an accepted inline publish that is QoS 0 after shaping (`AcceptedInline`), on a topic that
@@ -520,7 +542,7 @@ def c03Op (retain : Bool) : Op := .recv 3 (.publish 0 false retain 0 [97, 47, 98
 
 /-- connection 3 is client object 3, and the publish is accepted -/
 theorem c03_accepted : assocGet c03State.connOf 3 = some 3 ∧ AcceptedQ0 c03State 3 [97, 47, 98] :=
-  ⟨by decide, by decide, by decide, by decide, by decide, by decide, by decide, by decide, by decide, by decide,
+  ⟨by decide, ⟨by decide, by decide, by decide, by decide, by decide, by decide, by decide, by decide, by decide⟩,
     by decide⟩
 
 /-- the message the op routes is `c03Msg` up to the stamps `processPublish` puts on it (creation time, MQTT version,
@@ -607,3 +629,4 @@ end Mochi.Broker
 #print axioms Mochi.Broker.C03_publish_op_exact_reach_partial
 #print axioms Mochi.Broker.C03_publish_op_exact_seq_partial
 #print axioms Mochi.Broker.c03_accepted
+#print axioms Mochi.Broker.recv_publish_delivery_exact_releases
